@@ -51,3 +51,11 @@ Example C05_nonvacuous :
                       PObserve; PCheck (A "n", V [4]%Z)] XReturn; PObserve]
   = "v:acc b:2:S{n=4} V{} v:acc x:BaseException b:1:S{n=3} V{} v:rej b:0:S{} V{} | depth=0 sig=-".
 Proof. vm_compute. reflexivity. Qed.
+
+(* the model pops the context on every exit of a call or block; the source does so exactly when each push_shape_memo is
+   directly followed by try/finally pop_shape_memo() with no suspension point inside, the context block pops once
+   unconditionally in __exit__, and pop itself is unconditional -- read from the AST (gen/Brackets.v) *)
+From JT Require Import gen.Brackets.
+Theorem C05_push_pop_is_bracketed_in_the_source : push_pop_bracketed = true /\ pop_unconditional = true.
+Proof. split; reflexivity. Qed.
+Print Assumptions C05_push_pop_is_bracketed_in_the_source.
